@@ -48,14 +48,33 @@ for _n in (1, 2, 3, 4, 5):
       "String::try_unpack never panics; Ok <=> header readable, declared bytes present and valid UTF-8 by an independent validator; "
       "the unchecked unpack (from_utf8_unchecked) then returns the same bytes", tier="quick" if _n < 5 else "thorough")
 
+for _t in (1, 2):
+    H("G-HEX-pack", "pack_string_word_then_tail%d" % _t, "C39 C35 C15", "8 ASCII bytes of ANY value + %d arbitrary tail byte(s), length prefix exact; unwind 14" % _t,
+      "String::try_unpack accepts exactly when the tail is valid UTF-8 (independent validator): bytes after the last full machine word are checked", timeout=600)
 H("G-HEX-pack", "pack_huge_length_prefix_rejected_10", "C35 C39 C15 C17", "EVERY 11-byte input starting with a 10-byte varint of value >= 2^63; unwind 13",
   "String / Vec<u8> try_unpack and value_len report missing data; header + length never wraps", timeout=900)
 H("G-HEX-pack", "pack_huge_length_prefix_rejected_9", "C35 C39 C15 C17", "EVERY 10-byte input starting with a 9-byte varint of value >= 2^56; unwind 13",
   "as above", tier="thorough")
 
-# G-HEX-rle (rle_validate_encoding vs. the unchecked RleDecoder) was written but never calibrated: every rung, including
-# the 1-byte slab, ran into the 300 s harness timeout (suspected: the Display formatting in
-# `map_err(|e| PackError::InvalidValue(e.to_string()))`). It is not registered; see DESIGN.md section 9.
+# ---------------------------------------------------------------------------------------------
+# G-HEX-rle: validator vs. unchecked decoder. The four Leb128 reads are stubbed with reference readers that
+# codec_ref_equiv_len* prove equal to the real ones (assume-guarantee): io::Error's drop glue in the real
+# reads alone made a 2-byte decode exceed 200 s.
+for _n, _t in ((0, "quick"), (1, "quick"), (2, "quick"), (3, "quick"), (4, "quick"), (5, "quick"), (6, "thorough"), (10, "thorough"), (11, "thorough")):
+    H("G-HEX-codec", "codec_ref_equiv_len%d" % _n, "C35 C15", "EVERY byte string of length %d; unwind 13" % _n,
+      "Leb128::{read_unsigned,read_signed,try_read_unsigned,try_read_signed} = the reference readers (value and bytes consumed; None/Err together)", tier=_t)
+group("G-HEX-rle", "hexane", "hx_rle_load.rs", "rle::load",
+      ["rle::load::rle_validate_encoding::<u64|Option<u64>, Leb128>", "rle::decoder::RleDecoder::{new,try_next_segment,next,advance_run}",
+       "rle::decoder::RleSegment::validate_after", "<u64|Option<u64> as RleValue>::{try_unpack,unpack,get_null}"],
+      stubs=["<Leb128 as Codec>::{read_unsigned,read_signed,try_read_unsigned,try_read_signed} -> reference readers in hx_root.rs, proved equal to "
+             "the real ones on every input of length 0..=5 (quick) / 6, 10, 11 (thorough) by codec_ref_equiv_len*; errors collapse to InvalidNumber(Overflow), which the RLE code only propagates",
+             "alloc::fmt::format -> empty String"],
+      assumptions=["slab = every byte string of the stated fixed length; the first 3 items are pulled from the unchecked decoder"])
+for _ty, _lens in (("u64", ((2, "quick"), (3, "quick"), (4, "thorough"), (5, "thorough"))), ("opt_u64", ((2, "quick"), (3, "thorough"), (4, "thorough")))):
+    for _n, _t in _lens:
+        H("G-HEX-rle", "rle_validate_then_decode_%s_len%d" % (_ty, _n), "C35 C15 C16", "EVERY %d-byte slab of a %s column; unwind %d" % (_n, _ty.replace("opt_", "nullable "), _n + 4),
+          "rle_validate_encoding is total; if it accepts, the UNCHECKED decoder (unwrap / unchecked slicing) walks the same bytes without panicking and yields exactly `len` items",
+          tier=_t, timeout=900 if _t == "quick" else 1800)
 
 # harnesses in the crate root module are named "verif_kani::<fn>" (no leading module path)
 for _h in HARNESSES:
@@ -65,10 +84,10 @@ for _h in HARNESSES:
 SETUP_HARNESS["hexane"] = "codec::verif_kani::codec_varbuf_bytes"
 
 PROPS["C35"] = {
-    "decided": "wire level of hexane",
-    "outside": ["Column::load / save / splice, the slab B-tree and slab cutting (3 pushes into a Column do not finish in 10 min)"],
+    "decided": "wire level of hexane: the varint codec for ALL u64 / i64 and every byte string up to 11 bytes (and its equality with reference readers), every RleValue pack/unpack pair, length prefixes near u64::MAX, and the load-time contract of RLE columns - whatever rle_validate_encoding accepts (every 2-5 byte slab of a u64 / nullable u64 column) the unchecked decoder walks without panicking, yielding exactly the announced number of items",
+    "outside": ["Column::load / save / splice, the slab B-tree and slab cutting (3 pushes into a Column do not finish in 10 min)", "boolean and delta columns", "string slabs and the skipping read nth() (past 1800 s)"],
 }
 PROPS["C39"] = {
-    "decided": "String::try_unpack only returns valid UTF-8",
-    "outside": ["whether every automerge call site validates before using the unchecked decoder"],
+    "decided": "String::try_unpack only returns valid UTF-8 (independent validator): every byte string up to 4 (thorough 5) bytes, 8 ASCII bytes followed by an arbitrary 1-2 byte tail (word-at-a-time scans), length prefixes near u64::MAX; the unchecked unpack then returns the same bytes",
+    "outside": ["whether every automerge call site validates before using the unchecked decoder (bundles do not: see DESIGN.md 9.3)", "ScalarValue::from_raw", "the unchecked RLE decoder over string slabs (past 1800 s)"],
 }
